@@ -9,7 +9,11 @@
 (*          subfield LEN short, long / subfield bytes shorter than announced *)
 (*          (LEN kept) / STARGZ magic / zstd frame magic                     *)
 (*   off    TOC offset written into the footer: zero, inside (the real one), *)
-(*          size (= blob size), beyond, max (2^63-1; zstd: 2^64-1), nonhex   *)
+(*          size (= blob size), beyond, max (2^63-1; zstd: 2^64-1), nonhex;  *)
+(*          zstd only: small (16), near63 (2^63-16)                           *)
+(*   len    zstd:chunked only (the one footer that carries LENGTH fields,     *)
+(*          compressed and uncompressed): ok (100), zero, wrap (2^63 - off:   *)
+(*          off + len overflows int64), max63 (2^63-1), big62 (2^62), max64   *)
 (*   opt    WithTOCOffset option given to Open (the store passes a manifest  *)
 (*          annotation): none, inside, end (size-1), beyond                  *)
 (* Reference: Valid(c) (an unmutated footer of the kind with the real offset *)
@@ -17,20 +21,23 @@
 (* else may be accepted or rejected; never a panic, a fatal error or a hang. *)
 EXTENDS Integers, Sequences, FiniteSets, TLC
 
-CONSTANTS Kinds, BLens, Muts, Offs, Opts, GuardLen   \* GuardLen: the reference demands an error for blobs shorter than the footer
+CONSTANTS Kinds, BLens, Muts, Offs, Lens, Opts, GuardLen   \* GuardLen: the reference demands an error for blobs shorter than the footer
 
 VARIABLE c
 
 MutsOf(k) == IF k = "zstd" THEN {"none", "zmagic"} ELSE Muts \ {"zmagic"}
-Cases == {[kind |-> k, blen |-> b, mut |-> m, off |-> o, opt |-> p] :
-            k \in Kinds, b \in BLens, m \in Muts, o \in Offs, p \in Opts}
+Cases == {[kind |-> k, blen |-> b, mut |-> m, off |-> o, len |-> n, opt |-> p] :
+            k \in Kinds, b \in BLens, m \in Muts, o \in Offs, n \in Lens, p \in Opts}
 WellFormed(x) ==
     /\ x.mut \in MutsOf(x.kind)
     /\ x.blen \in {"0", "1", "lt"} => (x.mut = "none" /\ x.off = "inside")      \* nothing left to mutate
     /\ x.kind = "ext" => x.off = "inside"                                       \* no offset in this footer
     /\ x.opt # "none" => (x.mut = "none" /\ x.blen = "gt")
+    /\ (x.len # "ok" \/ x.off \in {"small", "near63"}) =>
+           (x.kind = "zstd" /\ x.blen = "gt" /\ x.mut = "none" /\ x.opt = "none")
 
-Valid(x) == x.blen = "gt" /\ x.mut = "none" /\ x.off = "inside" /\ x.opt \in {"none", "inside"}
+Valid(x) == x.blen = "gt" /\ x.mut = "none" /\ x.off = "inside" /\ x.len = "ok" /\ x.opt \in {"none", "inside"}
+Overflowing(x) == x.len \in {"wrap", "max63", "max64"} \/ (x.off \in {"near63", "max"} /\ x.len # "zero")   \* off + len leaves int64
 TooShort(x) == x.blen \in {"0", "1", "lt"}
 Allowed(x, ep) ==         \* ep = entry point: "parse:<kind>" is the footer parser of that kind, "open" is estargz.Open / a store
     IF ep = "parse:" \o x.kind /\ Valid(x) THEN {"ok"}
